@@ -1,0 +1,12 @@
+//go:build verif
+
+// Contracts for deductive verification (govc). Only compiled with the build tag "verif".
+
+package patch
+
+// MPDDiff: documents without a root element (e.g. an error text instead of an MPD) are refused
+// before the roots are compared (checkPatchConditions dereferences them).
+//@ func MPDDiff
+//@   wiring
+//@   callsite checkPatchConditions requires rootsPresent: arg0 != nil && arg1 != nil
+//@   callsite newPatchDoc requires rootsPresent: arg0 != nil && arg1 != nil
